@@ -87,16 +87,98 @@ pub fn err_info(e: &EncodeError) -> ErrInfo {
     }
 }
 
-/// Bytes of `Stream::write` into a `ByteSink`; a library that fails to serialise its own stream yields an
-/// error result (compared like any other result), not a harness failure.
+/// Bytes of `Stream::write`; a library that fails to serialise its own stream yields an error result
+/// (compared like any other result), not a harness failure. The sink the stream is emitted through is a
+/// dimension of the workload (the same for every mode of one workload): the byte sink, the library's 64-bit
+/// word sink (exported word by word, big-endian, by the harness), or a user sink with the required methods
+/// only that stores the bits it receives.
+fn stream_bytes_via(stream: &Stream, sink_kind: u8) -> Result<Vec<u8>, ErrInfo> {
+    let werr = |e: String| ErrInfo { kind: "Write".into(), text: e };
+    match sink_kind {
+        1 => {
+            let mut sink = flacenc::bitsink::MemSink::<u64>::new();
+            stream.write(&mut sink).map_err(|e| werr(format!("{e}")))?;
+            let nbytes = (sink.len() + 7) / 8;
+            let mut out = Vec::with_capacity(nbytes + 8);
+            for wd in sink.as_slice() {
+                out.extend_from_slice(&wd.to_be_bytes());
+            }
+            if out.len() < nbytes {
+                return Err(werr(format!("word sink holds {} bytes of storage for {} bits", out.len(), sink.len())));
+            }
+            out.truncate(nbytes);
+            Ok(out)
+        }
+        2 => {
+            let mut sink = CollectSink { bits: 0, acc: 0, nacc: 0, out: vec![] };
+            stream.write(&mut sink).map_err(|e| werr(format!("{e}")))?;
+            if sink.nacc != 0 {
+                return Err(werr(format!("stream is not a whole number of bytes ({} bits)", sink.bits)));
+            }
+            Ok(sink.out)
+        }
+        _ => {
+            let mut sink = ByteSink::new();
+            stream.write(&mut sink).map_err(|e| werr(format!("{e}")))?;
+            Ok(sink.into_inner())
+        }
+    }
+}
+
 fn stream_bytes(stream: &Stream) -> Result<Vec<u8>, ErrInfo> {
-    let mut sink = ByteSink::new();
-    match stream.write(&mut sink) {
-        Ok(()) => Ok(sink.into_inner()),
-        Err(e) => Err(ErrInfo {
-            kind: "Write".into(),
-            text: format!("{e}"),
-        }),
+    stream_bytes_via(stream, 0)
+}
+
+/// A user sink with the required methods only that keeps what it receives (MSB first).
+struct CollectSink {
+    bits: usize,
+    acc: u64,
+    nacc: u32,
+    out: Vec<u8>,
+}
+
+impl CollectSink {
+    fn push(&mut self, v: u64, n: usize) {
+        for i in (0..n).rev() {
+            self.acc = (self.acc << 1) | ((v >> i) & 1);
+            self.nacc += 1;
+            self.bits += 1;
+            if self.nacc == 8 {
+                self.out.push(self.acc as u8);
+                self.acc = 0;
+                self.nacc = 0;
+            }
+        }
+    }
+}
+
+fn bits_to_u64<T: flacenc::bitsink::Bits>(v: T) -> (u64, usize) {
+    (v.into(), std::mem::size_of::<T>() * 8)
+}
+
+impl flacenc::bitsink::BitSink for CollectSink {
+    type Error = std::convert::Infallible;
+    fn align_to_byte(&mut self) -> Result<usize, Self::Error> {
+        let pad = (8 - self.nacc as usize % 8) % 8;
+        self.push(0, pad);
+        Ok(pad)
+    }
+    fn write_lsbs<T: flacenc::bitsink::Bits>(&mut self, val: T, n: usize) -> Result<(), Self::Error> {
+        let (x, _) = bits_to_u64(val);
+        self.push(x, n);
+        Ok(())
+    }
+    fn write_msbs<T: flacenc::bitsink::Bits>(&mut self, val: T, n: usize) -> Result<(), Self::Error> {
+        let (x, w) = bits_to_u64(val);
+        if n > 0 {
+            self.push(x >> (w - n), n);
+        }
+        Ok(())
+    }
+    fn write<T: flacenc::bitsink::Bits>(&mut self, val: T) -> Result<(), Self::Error> {
+        let (x, w) = bits_to_u64(val);
+        self.push(x, w);
+        Ok(())
     }
 }
 
@@ -151,6 +233,18 @@ fn framewise(w: &Workload, src: &mut SimSource) -> Result<Stream, EncodeError> {
         let frame = flacenc::encode_fixed_size_frame(&cfg, &fb_ctx.0, n, stream.stream_info())?;
         stream.add_frame(frame);
         n += 1;
+        // a caller that looks at its objects while it works (a progress line, a debug log): reading the
+        // context, the buffer or the stream between two blocks must not change anything
+        if w.observers {
+            let ctx = &fb_ctx.1;
+            let seen = format!("{:?} {:?} {} {:?}", ctx.md5_digest(), ctx.current_frame_number(), ctx.total_samples(), ctx);
+            let fb = &fb_ctx.0;
+            std::hint::black_box((seen, fb.filled_size(), fb.size(), fb.channels(), stream.frame_count(), stream.stream_info().max_frame_size()));
+            if n % 2 == 1 {
+                let _ = std::hint::black_box(stream.frame(n - 1).map(|f| (f.count_bits(), f.block_size())));
+                let _ = std::hint::black_box(stream.stream_info().clone());
+            }
+        }
     }
     let (_, ctx) = fb_ctx;
     stream.stream_info_mut().set_md5_digest(&ctx.md5_digest());
@@ -233,7 +327,7 @@ fn body() {
         let _ = h.join();
     }
     let (result, frames) = match &res {
-        Ok(stream) => (stream_bytes(stream), stream.frame_count()),
+        Ok(stream) => (stream_bytes_via(stream, w.emit_sink), stream.frame_count()),
         Err(e) => (Err(err_info(e)), 0),
     };
     drop(res);
